@@ -27,7 +27,7 @@ import (
 )
 
 type Op struct {
-	K    string `json:"k"` // append save savec appendc  (the c variants use an already-cancelled context: they must fail and write nothing)
+	K    string `json:"k"`              // append save savec appendc  (the c variants use an already-cancelled context: they must fail and write nothing)
 	Size int    `json:"size,omitempty"` // append: padding bytes
 	Sub  string `json:"sub,omitempty"`  // save: subscription id
 	// Back: save the offset of the Back-th most recent append acknowledged in
@@ -36,24 +36,24 @@ type Op struct {
 }
 
 type Cycle struct {
-	Ops      []Op   `json:"ops"`
-	End      string `json:"end"`                 // kill close
-	At       int    `json:"at"`                  // after acknowledgement number At (0 = before any op completes)
-	DelayUs  int    `json:"delay_us,omitempty"`  // kill: extra delay before SIGKILL
-	Batch    int    `json:"batch,omitempty"`     // child opens the store with this stream batch size (irrelevant to writes)
+	Ops     []Op   `json:"ops"`
+	End     string `json:"end"`                // kill close
+	At      int    `json:"at"`                 // after acknowledgement number At (0 = before any op completes)
+	DelayUs int    `json:"delay_us,omitempty"` // kill: extra delay before SIGKILL
+	Batch   int    `json:"batch,omitempty"`    // child opens the store with this stream batch size (irrelevant to writes)
 }
 
 type Case struct {
-	Cycles      []Cycle `json:"cycles"`
-	ExtraOpens  int     `json:"extra_opens"`
+	Cycles     []Cycle `json:"cycles"`
+	ExtraOpens int     `json:"extra_opens"`
 }
 
 // childScript is handed to the child process.
 type childScript struct {
-	Path   string `json:"path"`
-	Ops    []Op   `json:"ops"`
-	FirstID int   `json:"first_id"`
-	CloseAt int   `json:"close_at"` // clean close after this many ops (-1 = run to the end then wait to be killed)
+	Path    string `json:"path"`
+	Ops     []Op   `json:"ops"`
+	FirstID int    `json:"first_id"`
+	CloseAt int    `json:"close_at"` // clean close after this many ops (-1 = run to the end then wait to be killed)
 }
 
 // ChildMain is the body of the child process.
@@ -158,8 +158,8 @@ func Run(c *Case) *vkit.Outcome {
 	}
 	defer os.RemoveAll(dir)
 	dbPath := filepath.Join(dir, "log.db")
-	var log []modelEvent            // acknowledged (or proven) events in order
-	saved := map[string]string{}    // id -> acknowledged saved offset
+	var log []modelEvent         // acknowledged (or proven) events in order
+	saved := map[string]string{} // id -> acknowledged saved offset
 	nextID := 1
 	killsWithAcks := 0
 	for ci, cy := range c.Cycles {
